@@ -2,6 +2,7 @@
 C17 — reading never writes.
 -/
 import SC.Lemmas.Seq
+import SC.Lemmas.Buffer
 namespace SC.Props
 open SC
 
@@ -23,5 +24,22 @@ theorem C17_reads_pure (s : State) (prog : List (Handle × Op)) (hr : ∀ p ∈ 
     simp only [List.foldl]
     rw [ih _ (fun q hq => hr q (List.mem_cons_of_mem _ hq))]
     exact call_read_stores s p.1 p.2 (hr p List.mem_cons_self)
+
+/-- C17 (buffered): a file whose buffered copy was only read is never written by any flush —
+at the exit of any context or forced by the capacity — and the flush never raises, whatever
+the file looks like on disk; serialized strategy (contents still equal to what was read). -/
+theorem C17_buffered_readonly_not_written_serialized (s : B.State) (oi : Nat) (o : B.Obj) (force : Bool)
+    (e : B.Entry) (he : s.entry o.res = some e) (hm : Tr.same e.contents e.hash = true) :
+    (B.flushSer s oi o force).2 = none ∧
+    (B.flushSer s oi o force).1.stores = s.stores ∧ (B.flushSer s oi o force).1.metas = s.metas :=
+  B.flushSer_readonly s oi o force e he hm
+
+/-- shared-memory strategy (modified flag unset — only a save sets it, and reads never save). -/
+theorem C17_buffered_readonly_not_written_memory (s : B.State) (oi : Nat) (o : B.Obj) (force : Bool)
+    (e : B.Entry) (hb : (!(s.isBuffered o) || force) = true) (he : s.entry o.res = some e)
+    (hm : e.modified = false) :
+    (B.flushMem s oi o force).2 = none ∧
+    (B.flushMem s oi o force).1.stores = s.stores ∧ (B.flushMem s oi o force).1.metas = s.metas :=
+  B.flushMem_readonly s oi o force e hb he hm
 
 end SC.Props
